@@ -113,7 +113,8 @@ def require(m):
     reasons = []
     feats = set(m['classes'].get('message features', ()))
     for need in ('bit>64', 'pds_keys', 'proc:ICC', 'proc:DE43', 'proc:PAN', 'proc:PAN-PREFIX', 'proc:PDS', 'type:datetime',
-                 'type:decimal', 'type:int', 'type:long', 'LLVAR', 'LLLVAR', 'FIXED'):
+                 'type:decimal', 'type:int', 'type:long', 'type:string', 'variable-length:decimal', 'variable-length:int', 'LLVAR',
+                 'LLLVAR', 'FIXED'):
         if need not in feats:
             reasons.append('feature never exercised: ' + need)
     ll = set(m['classes'].get('variable lengths round-tripped (LLVAR)', ()))
